@@ -463,7 +463,7 @@ class C07(Prop):
                 "NV.C07.slotOf_formula", "NV.C07.cacheMask_is_size_minus_one", "NV.C07.slotOf_lt", "NV.C07.find_masks_are_source",
                 "NV.C07.name_masks_are_source", "NV.C07.cmp_marker_is_byte_max",
                 "NV.C07.permute_slot_entry", "NV.C07.permute_ft_mem", "NV.C07.permute_keeps_rest", "NV.C07.sortIdx_isPerm",
-                "NV.C07.resort_slot_entry", "NV.C07.inversePerm_getElem", "NV.C07.built_fio_sorted",
+                "NV.C07.resort_slot_entry", "NV.C07.inversePerm_getElem", "NV.C07.built_fio_sorted", "NV.C07.built_indices_in_range",
                 "NV.C07.cmp_literals_are_source", "NV.C07.resort_sorted", "NV.C07.sortIdx_pairwise",
                 "NV.C07.setupVariables_length", "NV.C07.setupVariables_get", "NV.C07.setupVariables_is_spec",
                 "NV.C07.every_frame_sees_its_own_block", "NV.C07.calleeOf_entered", "NV.C07.applyLow_call_is_find",
@@ -501,7 +501,9 @@ class C07(Prop):
                   "lib/lpc/program/binaries.c (dispatch by slot unchanged by every permutation, table sorted) and compress_function_tables / "
                   "FIND_FUNC_ENTRY / find_func_entry (every slot read back from the compressed table is the uncompressed entry; "
                   "frames chased through compressed tables equal frames chased through uncompressed ones) for all program tables "
-                  "satisfying decidable well-formedness predicates and all call histories; the predicates (wfFind, wfSlots, cmpWF) "
+                  "satisfying decidable well-formedness predicates and all call histories, incl. histories in which programs are freed and "
+                  "their addresses reused (model only); every frame entered by any call kind has the offsets of its own copy "
+                  "(every_frame_sees_its_own_block); the predicates (wfFind, wfSlots, cmpWF, backrefs) "
                   "are evaluated on every real / model-built table; the compiler's table construction is modelled and compared per "
                   "generated program (translation validation) with the alias-flag and inherit-order theorems proved for all programs")
     level_note = ("trusted: Lean kernel; extract.py and the AST translators in props/c07.py; the harness' table dump (tbl through "
@@ -511,7 +513,9 @@ class C07(Prop):
                   "modelled (tables have < 65536 slots)")
     rule = ("cases = corpus + boundary list + seeded random inheritance graphs (2-7 programs, depth <= 4, up to 3 inherits per "
             "program with private/static/public/protected modifiers, overriding, prototypes before and after inherits, "
-            "`::f` / `A::f` / local calls, function pointers and functionals evaluated in place or by ANOTHER object in bodies) x "
+            "`::f` / `A::f` / local calls, function pointers, functionals `(: f() :)` / `(: ::f() :)` and anonymous functions evaluated in "
+            "place, by ANOTHER object (directly or as map_array / filter_array callbacks), or stored and evaluated later by another "
+            "inherit level, in bodies) x "
             "12-45 calls by name from call_other (shared and copied name string), driver apply, call_out-origin apply and real "
             "call_out, with refused and non-existent names, call_other on ARRAY targets (objects, file names, non-objects; the "
             "function at every position) and on FILE NAME targets (loaded / loaded by the call, running create() in between / no "
